@@ -279,11 +279,29 @@ func (vs *violSet) list() []viol {
 	return append([]viol(nil), vs.v...)
 }
 
+// confirmed: signatures that were already confirmed (3 of 3 re-runs) in a scenario.
+var confirmed sync.Map // scenario + "\x00" + sig -> true
+
 // confirm runs a case, and if it fails re-runs it three times on fresh sockets; a
-// signature is reported only if every re-run produces it again.
+// signature is reported only if every re-run produces it again.  A case that fails
+// with nothing but signatures already confirmed on an earlier case of the scenario
+// only adds to their counts (a tree that fails everywhere would otherwise spend the
+// whole budget in watchdogs).
 func confirm(st *ekit.Stats, input string, run func() []viol) {
 	first := run()
 	if len(first) == 0 {
+		return
+	}
+	known := true
+	for _, v := range first {
+		if _, ok := confirmed.Load(st.Scenario + "\x00" + v.sig); !ok {
+			known = false
+		}
+	}
+	if known {
+		for _, v := range first {
+			st.Fail(v.sig, v.kind, input, "%s", v.msg)
+		}
 		return
 	}
 	again := map[string]int{}
@@ -298,6 +316,7 @@ func confirm(st *ekit.Stats, input string, run func() []viol) {
 	}
 	for _, v := range first {
 		if again[v.sig] == 3 {
+			confirmed.Store(st.Scenario+"\x00"+v.sig, true)
 			st.Fail(v.sig, v.kind, input, "%s", v.msg)
 		} else {
 			st.Count("unconfirmed")
